@@ -16,7 +16,8 @@ class C40(vlib.Spec):
                 "C40_raft_lc_from_vote_invariant", "C40_raft_invariants_step", "C40_raft_invariants_reachable",
                 "C40_raft_leader_completeness", "C40_raft_commit_sound", "C40_raft_sms_all",
                 "C40_paxos_safety", "C40_paxos_recommit_obeys_pick", "C40_paxos_slot_reuse_refuted",
-                "C40_paxos_acceptor_refines", "C40_paxos_proposer_refines_if_reconciled_once"]
+                "C40_paxos_acceptor_refines", "C40_paxos_proposer_refines_if_reconciled_once",
+                "C40_paxos_leader_by_one_acceptor_refuted"]
     crate, group, binary = "h_raft", "hydro", "h_raft"
     imports = "From HV Require Import Proto.RaftNet.\nFrom HV Require Proto.PaxosCheck."
     level = "proof"
@@ -34,7 +35,8 @@ class C40(vlib.Spec):
                    "tick with scripted message batches (bincode on the wire, paused tokio clock); the acceptor model is compared "
                    "on every run and proved to refine the abstract system (C40_paxos_acceptor_refines); the proposer's "
                    "sequencing model (recommit + index_payloads as wired) is compared on every run and does NOT refine it "
-                   "(two known findings); leader election timers/heartbeats, p1b quorum collection and checkpoints are not "
+                   "(known findings); its leader decision (ballot calculation, p1b quorum via hydro_std quorum) is modelled "
+                   "and compared on every run; election timers/heartbeat sending, p2b Err ballots and checkpoints are not "
                    "modelled; paxos_with_client.rs is not run"]
     rule = ("cluster cases: n in 3..5 members, decision-list schedules (election rounds, replication rounds, racing "
             "candidacies, partial FIFO/reordered/duplicated deliveries, crashes) executed with the REAL raft_step; "
@@ -58,9 +60,11 @@ class C40(vlib.Spec):
         "the real ACCEPTOR node of paxos_core is driven with scripted batches, its model is proved to refine the abstract "
         "system (C40_paxos_acceptor_refines); the real PROPOSER node is driven too and VIOLATES the property after a "
         "leader change with non-empty logs (KNOWN FINDINGS px/slot-reuse-after-leader-change: two payloads proposed and "
-        "reported decided for one slot; px/quorum-counts-replies-not-acceptors; C40_paxos_slot_reuse_refuted). So for "
-        "Paxos the property is REFUTED on the shipped program, not proved. Not modelled: election timers, p1b quorum "
-        "collection, checkpoints; the Hydro dataflow wiring around raft_step.")
+        "reported decided for one slot; px/quorum-counts-replies-not-acceptors, px/p1b-quorum-counts-replies-not-acceptors: both "
+        "quorums count replies, not distinct acceptors; C40_paxos_slot_reuse_refuted). So for Paxos the property is REFUTED "
+        "on the shipped program, not proved. The proposed one-line repair of the sequencing is backed by "
+        "C40_paxos_proposer_refines_if_reconciled_once but not applied (it changes the IR snapshot test paxos_ir). "
+        "Not modelled: election timers, checkpoints; the Hydro dataflow wiring around raft_step.")
 
     def gen(self, rng, tier, n):
         cases = []
@@ -130,6 +134,8 @@ class C40(vlib.Spec):
             return any(case["ticks"])
         if case["k"] == "px_prop":
             return True
+        if case["k"] == "px_elect":
+            return any(t["p1b"] for t in case["ticks"])
         if case["k"] == "cluster":
             st = proto.raft_stats(case, res)
             return bool(st["leaders"]) and st["commit"] > 0
